@@ -20,6 +20,15 @@ pub enum JsonValue {
 }
 
 impl JsonValue {
+    /// The JSON number for `value`, or nothing if it is not one (NaN or infinite).
+    pub fn from_finite(value: f64) -> Option<JsonValue> {
+        if value.is_finite() {
+            Some(value.into())
+        } else {
+            None
+        }
+    }
+
     pub fn type_name(&self) -> String {
         match self {
             JsonValue::Null => "null".to_string(),
